@@ -2516,6 +2516,14 @@ def call_lib(eng, st, name, args, kwargs, node):
         return getattr(math, name[5:])(*args)
       except (ValueError, OverflowError):
         pass
+    if name in ("math.log", "math.log2", "math.log10") and args and is_int_like(args[0]) and not st.spec:
+      eng.implicit(st, "ValueError", to_z3(ni(args[0])) > 0, node, "math domain error")
+    # ghost hooks of the contract under verification at a floating-point library call: the integer arguments are
+    # visible as args[...] (on_call key "builtin:math.log"); the float result stays abstracted
+    hooks = eng.cur.on_call.get("builtin:" + name) if (eng.cur is not None and len(st.frames) == 1 and not st.spec) else None
+    if hooks:
+      eng.run_ghost(st, hooks, {"args": tuple(args), "ret": None}, f"{eng.cur.qual}/at-call:{name}@{eng.loc(node)}",
+                    getattr(node, "lineno", 0))
     eng.abstracted.add(f"{name}(...) at L{getattr(node, 'lineno', 0)} (float)")
     return Opaque(name)
   if name == "time.time":
